@@ -23,10 +23,18 @@ one() {
   rm -rf $SCR $log
 }
 export -f one
-ls -d seeded/*/ | sed 's#/$##' | xargs -P $JOBS -I{} bash -c "one {} $OUT"
+# optional second argument: a regular expression selecting seed ids (their rows replace the rows of the last full sweep)
+FILTER=${2:-.}
+ls -d seeded/*/ | sed 's#/$##' | grep -E "$FILTER" | xargs -P $JOBS -I{} bash -c "one {} $OUT"
 python3 - $OUT <<'P'
 import json,sys,glob
-rows=sorted((json.load(open(f)) for f in glob.glob(sys.argv[1]+"/*.json")), key=lambda r:r["id"])
+rows={r["id"]: r for r in (json.load(open(f)) for f in glob.glob(sys.argv[1]+"/*.json"))}
+import os
+if os.path.exists("/verif/sensitivity/seeded_sweep.json"):
+    old={r["id"]: r for r in json.load(open("/verif/sensitivity/seeded_sweep.json"))["rows"]}
+    have=set(os.listdir("/verif/seeded"))
+    rows={**{k:v for k,v in old.items() if k in have}, **rows}
+rows=sorted(rows.values(), key=lambda r:r["id"])
 import subprocess
 head=subprocess.run(["git","-C","/repo","rev-parse","--short","HEAD"],capture_output=True,text=True).stdout.strip()
 json.dump({"repo_head":head,"tier":"quick","seed":1,"total":len(rows),"caught":sum(r["result"]=="caught" for r in rows),"rows":rows},open("/verif/sensitivity/seeded_sweep.json","w"),indent=1)
